@@ -365,29 +365,43 @@ func tcpOptionsScenario(bound int) *explore.Scenario {
 	}
 }
 
-// drain reads each decoded frame to its end.
-type drain struct{}
+// drain reads each decoded frame to its end and keeps it.
+type drain struct {
+	got  *[]string
+	excs *[]string
+}
 
-func (drain) HandleRead(ctx netty.InboundContext, m netty.Message) {
+func (d drain) HandleRead(ctx netty.InboundContext, m netty.Message) {
 	if r, ok := m.(io.Reader); ok {
-		if _, err := io.ReadAll(r); err != nil {
+		b, err := io.ReadAll(r)
+		if err != nil {
 			panic(err)
 		}
+		*d.got = append(*d.got, string(b))
 	}
 }
-func (drain) HandleException(ctx netty.ExceptionContext, ex netty.Exception) { ctx.Close(ex) }
+func (d drain) HandleException(ctx netty.ExceptionContext, ex netty.Exception) {
+	*d.excs = append(*d.excs, ex.Error())
+	ctx.Close(ex)
+}
+
+type sdObs struct {
+	got  [2][]string
+	excs [2][]string
+}
 
 // sharedDecoder: ONE decoder instance (the shipped length-based and delimiter decoders are stateless values
 // an application may build once and add to every pipeline) decodes the inbound streams of two channels
 // whose frames arrive in fragments (header split across reads).
-func sharedDecoder(name string, dec func() netty.Handler, stream []byte, bound int) *explore.Scenario {
+func sharedDecoder(name string, dec func() netty.Handler, stream []byte, want []string, bound int) *explore.Scenario {
 	return &explore.Scenario{
 		Name:  "codec/" + name + ": one decoder instance shared by two channels reading concurrently",
 		Bound: bound,
 		Cache: true,
 		Cfg:   vsched.Config{MaxSteps: 8000, Race: true},
-		Init:  func() any { return &struct{}{} },
+		Init:  func() any { return &sdObs{} },
 		Body: func(v any) {
+			o := v.(*sdObs)
 			shared := dec()
 			var chs []netty.Channel
 			for i := 0; i < 2; i++ {
@@ -400,7 +414,7 @@ func sharedDecoder(name string, dec func() netty.Handler, stream []byte, bound i
 					t.In = append(t.In, append([]byte{}, stream[k:e]...))
 				}
 				pl := netty.NewPipeline()
-				pl.AddLast(shared, drain{})
+				pl.AddLast(shared, drain{&o.got[i], &o.excs[i]})
 				ch := netty.NewChannel()(int64(i+1), context.Background(), pl, t, netty.AsyncExecutor())
 				pl.ServeChannel(ch)
 				chs = append(chs, ch)
@@ -411,7 +425,19 @@ func sharedDecoder(name string, dec func() netty.Handler, stream []byte, bound i
 			}
 		},
 		Outcome: func(x *vsched.Exec, v any) string { return fmt.Sprint(len(x.Races), x.Steps()) },
-		Check:   func(x *vsched.Exec, v any) []explore.Finding { return raceFindings(x) },
+		Check: func(x *vsched.Exec, v any) []explore.Finding {
+			o := v.(*sdObs)
+			fs := raceFindings(x)
+			// unsynchronised shared state inside the decoder that the monitor cannot see (memory handed to
+			// std-lib calls) still shows as one channel's frames being disturbed by the other one
+			for i := 0; i < 2; i++ {
+				if fmt.Sprint(o.got[i]) != fmt.Sprint(want) || len(o.excs[i]) > 0 {
+					fs = append(fs, explore.Finding{Key: "shared-decoder-state/" + name, Msg: fmt.Sprintf("channel %d decoded %q (exceptions %q) from a stream that holds %q: the two channels disturb each other through the shared decoder instance", i+1, o.got[i], o.excs[i], want)})
+					break
+				}
+			}
+			return fs
+		},
 	}
 }
 
@@ -534,10 +560,10 @@ func main() {
 				codecScenario("length-field+text", func() []netty.Handler {
 					return []netty.Handler{frame.LengthFieldCodec(binary.BigEndian, 1<<16, 0, 2, 0, 2), format.TextCodec()}
 				}, func(i int) any { return strings.Repeat("x", i*3) }, b+1),
-				sharedDecoder("length-field", func() netty.Handler { return frame.LengthFieldCodec(binary.BigEndian, 1024, 0, 2, 0, 2) }, []byte{0, 3, 'a', 'b', 'c', 0, 1, 'z'}, b),
-				sharedDecoder("varint", func() netty.Handler { return frame.VarintLengthFieldCodec(1024) }, []byte{3, 'a', 'b', 'c', 1, 'z'}, b),
-				sharedDecoder("delimiter", func() netty.Handler { return frame.DelimiterCodec(1024, "\r\n", true) }, []byte("ab\r\nc\r\n"), b),
-				sharedDecoder("fixed-length", func() netty.Handler { return frame.FixedLengthCodec(3) }, []byte("abcxyz"), b),
+				sharedDecoder("length-field", func() netty.Handler { return frame.LengthFieldCodec(binary.BigEndian, 1024, 0, 2, 0, 2) }, []byte{0, 3, 'a', 'b', 'c', 0, 1, 'z'}, []string{"abc", "z"}, b),
+				sharedDecoder("varint", func() netty.Handler { return frame.VarintLengthFieldCodec(1024) }, []byte{3, 'a', 'b', 'c', 1, 'z'}, []string{"abc", "z"}, b),
+				sharedDecoder("delimiter", func() netty.Handler { return frame.DelimiterCodec(1024, "\r\n", true) }, []byte("ab\r\nc\r\n"), []string{"ab", "c"}, b),
+				sharedDecoder("fixed-length", func() netty.Handler { return frame.FixedLengthCodec(3) }, []byte("abcxyz"), []string{"abc", "xyz"}, b),
 				codecScenario("delimiter+text", func() []netty.Handler {
 					return []netty.Handler{frame.DelimiterCodec(1<<16, "\n", true), format.TextCodec()}
 				}, func(i int) any { return strings.Repeat("y", i*3) }, b+1),
